@@ -1,6 +1,7 @@
 package specgen
 
 import (
+	"time"
 	"fmt"
 	"sort"
 	"strings"
@@ -121,7 +122,36 @@ type Prim struct {
 	Format string
 }
 
-func (p Prim) Schema() *Schema { return &Schema{Type: p.Type, Format: p.Format} }
+func (p Prim) Schema() *Schema {
+	return &Schema{Type: p.Type, Format: p.Format, TimeFormat: p.Layout()}
+}
+
+// Layout is the x-goag-go-time-format of a date-time primitive ("" = goag's default):
+// it travels in the name after an '@' (datetime@time.RFC1123Z).
+func (p Prim) Layout() string {
+	if i := strings.Index(p.Name, "@"); i >= 0 {
+		return p.Name[i+1:]
+	}
+	return ""
+}
+
+// TimeLayouts are the layouts the generators draw for date-time parameters and
+// response headers; GoLayout gives their meaning.
+var TimeLayouts = []string{"time.RFC1123Z", "time.DateOnly", "time.DateTime", "time.RFC3339"}
+
+func GoLayout(expr string) string {
+	switch expr {
+	case "time.RFC1123Z":
+		return time.RFC1123Z
+	case "time.DateOnly":
+		return time.DateOnly
+	case "time.DateTime":
+		return time.DateTime
+	case "time.RFC3339":
+		return time.RFC3339
+	}
+	return ""
+}
 
 var Prims = []Prim{
 	{"string", "string", ""},
@@ -142,6 +172,9 @@ var Prims = []Prim{
 func PrimOf(s *Schema) (Prim, bool) {
 	for _, p := range Prims {
 		if p.Type == s.Type && p.Format == s.Format {
+			if p.Format == "date-time" && s.TimeFormat != "" {
+				p.Name = "datetime@" + s.TimeFormat
+			}
 			return p, true
 		}
 	}
@@ -150,6 +183,20 @@ func PrimOf(s *Schema) (Prim, bool) {
 
 func (c *Ctx) prim(label string) Prim {
 	return rapid.SampledFrom(Prims).Draw(c.T, label)
+}
+
+// paramPrim is prim for parameter and response-header positions: a date-time there
+// may carry a Go time layout (x-goag-go-time-format).
+func (c *Ctx) paramPrim(label string) Prim {
+	return c.maybeLayout(c.prim(label), label)
+}
+
+func (c *Ctx) maybeLayout(p Prim, label string) Prim {
+	if p.Format == "date-time" && p.Layout() == "" && c.Allow("param:time-layout") && rapid.Bool().Draw(c.T, label+"_layout") {
+		p.Name = "datetime@" + rapid.SampledFrom(TimeLayouts).Draw(c.T, label+"_layout_expr")
+		c.Tag("param:time-layout")
+	}
+	return p
 }
 
 // ---------------------------------------------------------------------------
@@ -520,10 +567,11 @@ func (c *Ctx) oneOfSchema(depth int) *Schema {
 // schema, inline or as $ref to a primitive component schema.
 func (c *Ctx) ParamSchema(in string, label string) *Schema {
 	t := c.T
-	p := c.prim(label + "_prim")
+	p := c.paramPrim(label + "_prim")
 	c.Tag("param:" + in + ":" + p.Name)
 	s := p.Schema()
-	isArray := in == "query" && rapid.IntRange(0, 3).Draw(t, label+"_array") == 0
+	// (RFC1123Z text contains a comma: not inside form-style arrays)
+	isArray := in == "query" && rapid.IntRange(0, 3).Draw(t, label+"_array") == 0 && p.Layout() != "time.RFC1123Z"
 	if rapid.IntRange(0, 3).Draw(t, label+"_ref") == 0 && c.AllowSchema(s, "component") {
 		name := c.CompName("Prm", label)
 		r := c.AddSchema(name, s)
@@ -547,6 +595,11 @@ func (c *Ctx) ParamSchema(in string, label string) *Schema {
 func (c *Ctx) Param(in, name string, required bool) *Parameter {
 	t := c.T
 	p := &Parameter{Name: name, In: in, Required: required, Schema: c.ParamSchema(in, "param")}
+	// `deprecated` is an annotation: a deprecated parameter is parsed and required as before
+	if rapid.IntRange(0, 5).Draw(t, "param_deprecated") == 0 {
+		p.Deprecated = true
+		c.Tag("param:deprecated")
+	}
 	if rapid.IntRange(0, 3).Draw(t, "param_component") == 0 && c.AllowSchema(p.Schema, "component-parameter-"+in) {
 		cs := c.comps()
 		if cs.Parameters == nil {
